@@ -19,7 +19,9 @@
 #define SPEC_ENC2(a, b, c) SPEC_B64_CHAR((((b) & 0xf) << 2) | (((c) >> 6) & 0x3))
 #define SPEC_ENC3(a, b, c) SPEC_B64_CHAR((c) & 0x3f)
 
-#define B64_IN_MAX 0x5ffffff0u
+#define B64_IN_MAX 0x5ffffffdu
+/* base64_decode is reached with every text jwt_base64uri_decode admits: up to INT_MAX - 4 characters plus padding */
+#define B64_DEC_IN_MAX 0x7ffffffcu
 extern size_t g_b64_g;	/* ghost block index */
 
 /* base64_encode, shape: bounds, length, terminator (unbounded input length) */
@@ -60,7 +62,7 @@ __CPROVER_ensures((inlen % 3 == 2) ==> (
 
 /* base64_decode: bounds and result length; 0 when inlen is not a multiple of 4 */
 unsigned int contract_C11_base64_decode(const char *in, unsigned int inlen, unsigned char *out)
-__CPROVER_requires(inlen <= B64_IN_MAX)
+__CPROVER_requires(inlen <= B64_DEC_IN_MAX)
 __CPROVER_requires(inlen == 0 || __CPROVER_r_ok(in, inlen))
 /* (the one caller, jwt_base64uri_decode, passes a buffer of 3*(inlen/4)+1 bytes) */
 __CPROVER_requires(__CPROVER_w_ok(out, (size_t)3 * (inlen / 4) + 1))
